@@ -335,6 +335,16 @@ func mirrorExec(c *Ctx, op string) {
 		} else if got, e := Snapshot(dst); e != nil || got.Digest(true) != truncateForFormat(fsx).Digest(true) {
 			c.PropFail("mirror-not-identical", "the fileset unpacked from the target differs from the original", op)
 		}
+		// … to every account the warehouse's directory admits: the object is published readable (umask permitting), as the
+		// source's own objects are — a target readable by its writer alone does not serve W to an http export or a build user
+		if st, e := os.Stat(storedWarePath(tgtKind, tgt, id)); e == nil && !tgtOther {
+			um := syscall.Umask(0)
+			syscall.Umask(um)
+			if want := os.FileMode(0444) &^ os.FileMode(um); st.Mode().Perm()&want != want {
+				c.PropFail("mirror-not-served", fmt.Sprintf("the mirrored ware is published with mode %04o (umask %03o): no account but the one that ran the mirror can fetch it from the target", st.Mode().Perm(), um), op)
+			}
+			c.H("mirror-mode-checked")
+		}
 		// mirroring again needs no source
 		_, err4, pan4 := safeCall(func() (api.WareID, error) {
 			return fn.mirror(ctx, id, whAddr(tgtKind, tgt), nil, rio.Monitor{})
